@@ -540,6 +540,15 @@ class MailboxWorld:
         conn = self.conn(act["k"])
         self._deliver(conn, conn.s2c.popleft())
 
+    def _do_DeliverBurst(self, act):
+        """several frames arrive in one read of the socket: the WebSocket layer hands them over one after the other within one
+        reactor turn - nothing else (no eventual-queue turn either) runs between them"""
+        conn = self.conn(act["k"])
+        for _ in range(act["n"]):
+            if conn.state != "open" or conn.closing or not conn.s2c:
+                break
+            self._deliver(conn, conn.s2c.popleft())
+
     def _do_LateDeliver(self, act):
         conn = self.conn(act["k"])
         conn.late -= 1
